@@ -41,6 +41,8 @@ RULES = collections.OrderedDict([
     ("neg_reemit", ("neg", True, False, False)),
     ("negneg_reemit", ("negneg", True, False, False)),
     ("addmul_reemit", ("addmul", True, False, False)),
+    # forwarding replacement: Neg(Neg(x)) -> x (no new node; the matched output is taken over by an existing value)
+    ("negneg_fwd", ("negneg", True, False, False)),
     ("add_swap", ("add", True, False, False)),
     ("relu_tt", ("relu", True, False, False)),
     ("neg_mul1_const", ("neg", True, False, False)),
@@ -105,6 +107,9 @@ def make_rule(rname):
         if as_fn:
             def rep(op, x):
                 return op.NegNeg(x, _domain=H.FN_DOMAIN)
+        elif rname == "negneg_fwd":
+            def rep(op, x):
+                return x
         else:
             def rep(op, x):
                 return E(op.Neg(E(op.Neg(x))))
